@@ -66,3 +66,166 @@ def units(world):
     for wp in (False, True):
         out.append((f"{PQ}load[{'path' if wp else 'default-path'}]", PQ + "load", load_contract(wp), None, ()))
     return out
+
+
+# ---------------------------------------------------------------------------- C13/C15/C16: save, start, stop, saver closures, gateway context
+
+TC = "aiomysensors.transport.Transport.connect"
+TD = "aiomysensors.transport.Transport.disconnect"
+TASKS = ["ghost.tasks", "ghost.saver_pos"]
+
+
+def save_own_contract():
+    ct = Contract(PQ + "save", params={"self": PS}, modifies=FS + ["ghost.dumped_keys"],
+                  ensures=[P("C16/save-completes", "g('ghost.saves') == old(g('ghost.saves')) + 1 and g('ghost.file_exists')"),
+                           P("C13/save-dumps-every-node", "same_keys(dumped_keys(), self.nodes)"),
+                           H("save/registry-untouched", "registry_unchanged()")],
+                  raises={"PersistenceWriteError": [H("save/failed", "registry_unchanged()")]}, check_wf=False)
+    ct.raises_only_id = "C16+C13/raises-only"
+    return ct
+
+
+def save_loop():
+    return LoopContract(PQ + "save", 0,
+                        invariant=[H("C13/dumped-so-far", "forall(lambda k: (k in data) == (k in done))")],
+                        modifies=["data[...]"])
+
+
+def start_contract():
+    return Contract(PQ + "start", params={"self": PS}, modifies=["self._cancel_save"] + TASKS,
+                    ensures=[P("C16/saver-started", "g('ghost.tasks') == old(g('ghost.tasks')) + 1 and not (self._cancel_save is None)")],
+                    raises={}, check_wf=False)
+
+
+def cancel_save_contract():
+    ct = Contract(PQ + "start.cancel_save", params={"task": TOpaque("Task")}, modifies=TASKS,
+                  ensures=[P("C16/cancel-leaves-no-task", "g('ghost.tasks') == old(g('ghost.tasks')) - 1")], raises={}, check_wf=False)
+    ct.closure_params = ["task"]
+    ct.raises_only_id = "C16/raises-only"
+    return ct
+
+
+def saver_contract(case):
+    """save_on_schedule with a cancellation delivered at one of its await sites (C16/saver-cancellation-table)."""
+    if case == "cancel@save":
+        ens, rai = [P("C16/saver-cancellation-table", "False")], {"CancelledError": [H("saver/cancelled-in-save", "True")]}
+    elif case == "cancel@sleep":
+        ens, rai = [P("C16/saver-cancellation-table", "True")], {"PersistenceWriteError": [H("saver/save-failed", "True")]}
+    else:
+        ens, rai = [H("saver/never-returns", "False")], {"PersistenceWriteError": [H("saver/save-failed", "True")]}
+    ct = Contract(PQ + "start.save_on_schedule", params={"self": PS}, modifies=FS + ["ghost.slept", "ghost.dumped_keys"], ensures=ens, raises=rai, check_wf=False)
+    ct.closure_params = ["self"]
+    ct.optional_outcomes = ("normal", "raise:PersistenceWriteError", "raise:CancelledError")
+    ct.raises_only_id = "C16/saver-cancellation-table"
+    return ct
+
+
+def saver_loop():
+    return LoopContract(PQ + "start.save_on_schedule", 0,
+                        step=[P("C16/cadence", "g('ghost.saves') == old(g('ghost.saves')) + 1 and g('ghost.slept') <= 900 and g('ghost.slept') >= 0")])
+
+
+def stop_contract(started):
+    pre = [H("case/saver-started", "not (self._cancel_save is None)")] if started else [H("case/not-started", "self._cancel_save is None")]
+    ct = Contract(PQ + "stop", params={"self": PS}, requires=pre, modifies=["self._cancel_save"] + TASKS + FS + ["ghost.dumped_keys"],
+                  ensures=[P("C16/final-save", "g('ghost.saves') == old(g('ghost.saves')) + 1"),
+                           P("C16/no-task-left", f"g('ghost.tasks') == old(g('ghost.tasks')) - {1 if started else 0} and self._cancel_save is None")],
+                  raises={"PersistenceWriteError": [P("C16/no-task-left", f"g('ghost.tasks') == old(g('ghost.tasks')) - {1 if started else 0}")]}, check_wf=False)
+    ct.raises_only_id = "C16/raises-only"
+    return ct
+
+
+def stop_callee_contract():
+    """Persistence.stop for its callers (both cases in one contract)."""
+    n = "(0 if old(self._cancel_save is None) else 1)"
+    return Contract(PQ + "stop", params={"self": PS}, modifies=["self._cancel_save"] + TASKS + FS + ["ghost.dumped_keys"],
+                    ensures=[P("C16/final-save", "g('ghost.saves') == old(g('ghost.saves')) + 1"),
+                             P("C16/no-task-left", f"g('ghost.tasks') == old(g('ghost.tasks')) - {n} and self._cancel_save is None")],
+                    raises={"PersistenceWriteError": [P("C16/no-task-left", f"g('ghost.tasks') == old(g('ghost.tasks')) - {n}")]}, check_wf=False)
+
+
+def transport_contracts(w):
+    w.contracts[TC] = Contract(TC, params={"self": TObj("Transport")}, modifies=["ghost.connected"],
+                               ensures=[H("connect/ok", "g('ghost.connected')")], raises={"TransportError": [H("connect/failed", "True")]}, wf=False, check_wf=False)
+    w.contracts[TD] = Contract(TD, params={"self": TObj("Transport")}, modifies=["ghost.connected"],
+                               ensures=[H("disconnect/ok", "not g('ghost.connected')")], raises={"TransportError": [H("disconnect/failed", "True")]}, wf=False, check_wf=False)
+    w.assumed.update({TC, TD})
+
+
+def aenter_contract(with_persistence):
+    pre = [H("case/persistence", "not (self.persistence is None) and self.persistence._cancel_save is None")] if with_persistence else [H("case/no-persistence", "self.persistence is None")]
+    k = 1 if with_persistence else 0
+    mods = ["ghost.connected"] + TASKS + FS + JSON_OBJECTS + ["ghost.dumped_keys"] + (["self.persistence._cancel_save", "self.nodes[...]"] if with_persistence else [])
+    ct = Contract(GQ + "__aenter__", params={"self": TObj("Gateway")}, requires=pre + [H("wf/shared-registry", "implies(not (self.persistence is None), self.persistence.nodes is self.nodes)")],
+                  modifies=mods,
+                  ensures=[P("C16/entered", f"g('ghost.connected') and g('ghost.tasks') == old(g('ghost.tasks')) + {k} and result is self")],
+                  raises={"TransportError": [P("C16/enter-fail-no-task", "g('ghost.tasks') == old(g('ghost.tasks'))")],
+                          "PersistenceError": [P("C16/enter-fail-no-task", "g('ghost.tasks') == old(g('ghost.tasks'))")]},
+                  returns="self", check_wf=False)
+    ct.raises_only_id = "C16/raises-only"
+    ct.optional_outcomes = ("raise:PersistenceError",) if not with_persistence else ()
+    return ct
+
+
+def aexit_contract(with_persistence, started):
+    if with_persistence:
+        pre = [H("case/persistence", "not (self.persistence is None)"),
+               H("case/saver", "not (self.persistence._cancel_save is None)" if started else "self.persistence._cancel_save is None")]
+    else:
+        pre = [H("case/no-persistence", "self.persistence is None")]
+    k = 1 if (with_persistence and started) else 0
+    fin = f"g('ghost.tasks') == old(g('ghost.tasks')) - {k}" + (" and g('ghost.saves') == old(g('ghost.saves')) + 1" if with_persistence else "")
+    mods = ["ghost.connected"] + TASKS + FS + ["ghost.dumped_keys"] + (["self.persistence._cancel_save"] if with_persistence else [])
+    ct = Contract(GQ + "__aexit__", params={"self": TObj("Gateway"), "exc_type": ("const", None), "exc_value": ("const", None), "traceback": ("const", None)},
+                  requires=pre, modifies=mods,
+                  ensures=[P("C16/exit-always", f"not g('ghost.connected') and {fin}")],
+                  raises={"TransportError": [P("C16/exit-when-disconnect-fails", fin)],
+                          "PersistenceWriteError": [P("C16/no-task-left", f"g('ghost.tasks') == old(g('ghost.tasks')) - {k}")]}, check_wf=False)
+    ct.raises_only_id = "C16/raises-only"
+    ct.optional_outcomes = ("raise:PersistenceWriteError",) if not with_persistence else ()
+    return ct
+
+
+def c16_units(world):
+    transport_contracts(world)
+    world.loops[(PQ + "save", 0)] = save_loop()
+    world.loops[(PQ + "start.save_on_schedule", 0)] = saver_loop()
+    world.loops[(PQ + "load", 0)] = load_loop()
+    sos = world.nested_function(PQ + "start", "save_on_schedule")
+    cs = world.nested_function(PQ + "start", "cancel_save")
+    world.contracts[PQ + "save"] = save_contract()
+    world.contracts[PQ + "start"] = start_contract()
+    world.contracts[PQ + "stop"] = stop_callee_contract()
+    world.contracts[PQ + "start.cancel_save"] = cancel_save_contract()
+    world.contracts.setdefault(PQ + "load", load_contract(False))
+
+    def absorb(I):
+        I.task_absorbs_cancel_when_sleeping = True
+
+    def cancel_at(site):
+        def setup(I):
+            st = {"n": 0}
+
+            def hook(I2, node, fr):
+                if fr.func is not None and fr.func.qualname.endswith("save_on_schedule"):
+                    st["n"] += 1
+                    if st["n"] == site:
+                        raise RaiseSig(I2.make_exc("CancelledError", site=node))
+            I.await_hook = hook
+        return setup
+    out = [
+        (PQ + "save", PQ + "save", save_own_contract(), None, (), None),
+        (PQ + "start", PQ + "start", start_contract(), None, (), None),
+        (PQ + "start.cancel_save", PQ + "start.cancel_save", cancel_save_contract(), None, (), absorb),
+        (PQ + "start.save_on_schedule[cancel@save]", sos.qualname, saver_contract("cancel@save"), None, (), cancel_at(1)),
+        (PQ + "start.save_on_schedule[cancel@sleep]", sos.qualname, saver_contract("cancel@sleep"), None, (), cancel_at(2)),
+        (PQ + "start.save_on_schedule[running]", sos.qualname, saver_contract("running"), None, (), None),
+        (PQ + "stop[started]", PQ + "stop", stop_contract(True), None, (), absorb),
+        (PQ + "stop[not-started]", PQ + "stop", stop_contract(False), None, (), absorb),
+        (GQ + "__aenter__[persistence]", GQ + "__aenter__", aenter_contract(True), None, (), absorb),
+        (GQ + "__aenter__[no-persistence]", GQ + "__aenter__", aenter_contract(False), None, (), absorb),
+        (GQ + "__aexit__[persistence,saver-started]", GQ + "__aexit__", aexit_contract(True, True), None, (), absorb),
+        (GQ + "__aexit__[persistence,not-started]", GQ + "__aexit__", aexit_contract(True, False), None, (), absorb),
+        (GQ + "__aexit__[no-persistence]", GQ + "__aexit__", aexit_contract(False, False), None, (), absorb),
+    ]
+    return out
